@@ -24,6 +24,10 @@ namespace verif {
     static std::map<std::string, World *> r;
     return r;
   }
+  FatalHandler &fatal_handler() {
+    static FatalHandler h = nullptr;
+    return h;
+  }
 } // namespace verif
 
 using namespace verif;
@@ -66,6 +70,34 @@ static void terminate_handler() {
   _exit(70);
 }
 
+// context of the run in flight, for the fatal handler
+static const J *g_cur_plan = nullptr;
+static std::string g_cur_out_dir, g_cur_world;
+static bool g_cur_fixed = false, g_cur_replay = false;
+static unsigned long long g_cur_idx = 0;
+
+static void on_fatal(RunResult &r) {
+  const unsigned long long rs = g_cur_plan ? g_cur_plan->at("run_seed").unum() : 0;
+  if (g_cur_replay) {
+    printf("RESULT VIOL %s %s\n", "0000000000000000", r.rule.c_str());
+    printf("DETAIL %s\n", r.detail.c_str());
+    fflush(stdout);
+    _exit(1);
+  }
+  printf("END %llu %llu %016llx VIOL 1 %016llx %s 1 0\n", g_cur_idx, rs, static_cast<unsigned long long>(r.event_hash), static_cast<unsigned long long>(r.event_hash), r.rule.c_str());
+  printf("DETAIL %s\n", r.detail.c_str());
+  if (g_cur_plan) {
+    J cand = *g_cur_plan;
+    cand["expect"]["rule"] = J(r.rule);
+    cand["expect"]["detail"] = J(r.detail);
+    const std::string path = g_cur_out_dir + "/cand-" + g_cur_world + "-" + (g_cur_fixed ? "fixed-" : "") + std::to_string(rs) + ".json";
+    write_file(path, cand.dump() + "\n");
+    printf("CAND %s\n", path.c_str());
+  }
+  fflush(stdout);
+  _exit(3);
+}
+
 static int do_replay(const std::string &path) {
   J plan = J::parse(read_file(path));
   auto &reg = world_registry();
@@ -76,6 +108,9 @@ static int do_replay(const std::string &path) {
   }
   printf("BEGIN 0 %llu\n", static_cast<unsigned long long>(plan.at("run_seed").unum()));
   fflush(stdout);
+  g_cur_plan = &plan;
+  g_cur_replay = true;
+  fatal_handler() = on_fatal;
   RunResult r = it->second->execute(plan);
   printf("RESULT %s %s %s\n", r.violation ? "VIOL" : "ok", hex(r.event_hash).c_str(), r.violation ? r.rule.c_str() : "-");
   if (r.violation) {
@@ -203,6 +238,12 @@ int main(int argc, char **argv) {
       const unsigned long long rs = plan.at("run_seed").unum();
       printf("BEGIN %llu %llu\n", static_cast<unsigned long long>(idx), rs);
       fflush(stdout);
+      g_cur_plan = &plan;
+      g_cur_out_dir = out_dir;
+      g_cur_world = world;
+      g_cur_fixed = fixed;
+      g_cur_idx = idx;
+      fatal_handler() = on_fatal;
       RunResult r = w->execute(plan);
       ++done;
       for (auto &kv : r.counters) {
